@@ -688,8 +688,11 @@ def gen_rt(seed: int, tier: str = "quick") -> Dict[str, Any]:
     import math
     for s in sims:
         if s.get("events"):
+            # with instantaneous links the tick that is current *now* (in mosaik's ceil reading) is
+            # still in the future unless the call lands exactly on a tick boundary
+            slack = 0 if (max(durations) == 0 and not blocking) else 2
             s["rt"] = {"period": period, "until": until,
-                       "margin": 2 + math.ceil(max(durations) / period)}
+                       "margin": slack + math.ceil(max(durations) / period)}
     # durations apply to setup_done/step/get_data, not to the init/create handshake (a slow
     # handshake legitimately runs into start_timeout)
     zeroed = []
